@@ -21,6 +21,12 @@ for f in kf:
         rows.append("| %s | `%s` | %s | %s |" % (f["property"], f["key"], f["commit"], f["what"].replace("|", "\\|")))
 put("fixed-table", "\n".join(rows))
 
+rows = ["| property | mechanism key | what fails / why not repaired | failing input |", "|---|---|---|---|"]
+for f in kf:
+    if f["status"] == "known":
+        rows.append("| %s | `%s` | %s | %s |" % (f["property"], f["key"], f["what"].replace("|", "\\|"), f.get("failing_input", "").replace("|", "\\|")))
+put("known-table", "\n".join(rows))
+
 rows = ["| seed | property | what it needs to manifest | first result | caught by (now) | strengthening |", "|---|---|---|---|---|---|"]
 n = miss = 0
 for mp in sorted(glob.glob(os.path.join(H, "seeded", "*", "meta.json"))):
